@@ -163,3 +163,75 @@ func TestC17MonitorCreation(t *testing.T) {
 		return res
 	})
 }
+
+// Stop before start: the stop request comes before the queues are created and started (a signal during
+// start-up, a caller that stops the queue set first). Queues that are created afterwards belong to the same,
+// already stopped set: nothing is executed, every worker leaves at once.
+func TestC17BeforeStart(t *testing.T) {
+	e := vlib.GetEnv()
+	n := e.Pick(6, 60)
+	vlib.RunCases(t, "C17", "stop-before-start", n, func(c *vlib.Case) vlib.Result {
+		var res vlib.Result
+		hs := vlib.NewHookSet(c.Dir, "hooks")
+		hs.AddHook("a-startup", 0o755, cfgJSON(m{"configVersion": "v1", "onStartup": 1.0, "schedule": []any{m{"name": "s", "crontab": "31 4 4 4 *", "queue": "qa"}}}))
+		hs.AddHook("b-kube", 0o755, cfgJSON(m{"configVersion": "v1", "kubernetes": []any{m{"name": "k", "apiVersion": "v1", "kind": "ConfigMap", "queue": "qb"}}}))
+		how := []string{"QueuesStop", "Shutdown", "OperatorStop"}[c.Index%3]
+		var log []vlib.PointEvent
+		statuses := map[string]string{}
+		inBubble(c, func(t *testing.T) {
+			sys, err := vlib.NewSys(hs, nil)
+			if err != nil {
+				res.Inconclusive = "assemble: " + err.Error()
+				sys.StopNow()
+				return
+			}
+			defer sys.StopNow()
+			sys.Pts.Record("q.handler.enter", "q.worker.exit")
+			switch how {
+			case "QueuesStop":
+				sys.Op.TaskQueues.Stop()
+			case "Shutdown":
+				sys.Op.Shutdown()
+			case "OperatorStop":
+				sys.Op.Stop()
+			}
+			sys.Start()
+			sys.Advance(2 * time.Second)
+			select {
+			case sys.Op.ScheduleManager.Ch() <- "31 4 4 4 *":
+			default:
+			}
+			_ = createCM(sys, "default", "after-stop", 1)
+			sys.Advance(8 * time.Second)
+			log = sys.Pts.Log()
+			for _, qn := range sys.QueueNames() {
+				statuses[qn] = sys.Op.TaskQueues.GetByName(qn).GetStatus()
+			}
+		})
+		if res.Inconclusive != "" {
+			return res
+		}
+		desc := fmt.Sprintf("%s() called before the queues were created and started; queue status afterwards: %v", how, statuses)
+		exited := map[string]bool{}
+		for _, ev := range log {
+			q, _ := ev.Args[0].(string)
+			if ev.Name == "q.handler.enter" {
+				res.Violate("task-started-after-stop-before-start/"+how, "queue %s entered a handler although the stop had been requested before the queues were started\n%s", q, desc)
+			}
+			if ev.Name == "q.worker.exit" {
+				exited[q] = true
+			}
+		}
+		if n := len(hs.Executions()); n > 0 {
+			res.Violate("execution-after-stop-before-start/"+how, "%d hook executions\n%s", n, desc)
+		}
+		for q, st := range statuses {
+			if !exited[q] {
+				res.Violate("worker-did-not-terminate/before-start/"+how, "the worker of queue %s (status %q) did not leave\n%s", q, st, desc)
+			}
+		}
+		res.Count("stops_before_start", 1)
+		res.Key = how + fmt.Sprint(c.Index%2)
+		return res
+	})
+}
